@@ -52,6 +52,9 @@ def build(variant):
     pyrtl.reset_working_block()
     if variant == 'tie':
         names = ['a1', 'a01', 'a001', 'b2', 'b02', 'b002', 'c3', 'c03']
+    elif variant == 'case_tie':
+        # names equal up to letter case / leading zeros / underscores
+        names = ['sel', 'Sel', 'SEL', 'sEl', 'data_1', 'Data_1', 'DATA_1', 'data_01']
     elif variant == 'sani':
         names = ['x[0]', 'x[1]', 'y.z', 'p-q', 'r s', 't#', 'u@v', 'w%']
     elif variant == 'memen':
